@@ -25,8 +25,19 @@ pub enum RngSpec {
     Tagged { tag: u64 },
     /// explicit values for the first draws (hex; cycled to the requested length), then Prng
     Script { draws: Vec<String>, seed: u64 },
-    /// draw number `at` fails; `partial` bytes of garbage are written first
-    Fail { at: u32, partial: u32, seed: u64 },
+    /// draw number `at` fails (and the `repeat` draws after it: an outage rather than a glitch; u32::MAX =
+    /// for the rest of the step); `partial` bytes of garbage are written first. `code` is what the source
+    /// reports where the seam can say: 0 = a code of the simulator's own, n > 0 = the operating system's
+    /// errno n (EAGAIN, EINTR, EPERM, ENOSYS, EIO ...), -1 / -2 = getrandom's UNSUPPORTED / UNEXPECTED
+    Fail {
+        at: u32,
+        partial: u32,
+        seed: u64,
+        #[serde(default)]
+        repeat: u32,
+        #[serde(default)]
+        code: i32,
+    },
 }
 
 impl RngSpec {
@@ -36,6 +47,27 @@ impl RngSpec {
             RngSpec::Tagged { tag } => *tag,
             RngSpec::Script { seed, .. } => *seed,
             RngSpec::Fail { seed, .. } => *seed,
+        }
+    }
+    /// what a failing source reports and for how long (for the fault counters)
+    pub fn fail_class(&self) -> Option<String> {
+        match self {
+            RngSpec::Fail { repeat, code, .. } => {
+                let what = match *code {
+                    0 => "custom-code",
+                    -1 => "unsupported",
+                    -2 => "unexpected",
+                    n if n > 0 && getrandom_error(n).raw_os_error() == Some(n) => "os-errno",
+                    _ => "custom-code",
+                };
+                let span = match *repeat {
+                    0 => "one-draw",
+                    u32::MAX => "outage",
+                    _ => "several-draws",
+                };
+                Some(format!("{what}:{span}"))
+            }
+            _ => None,
         }
     }
     pub fn kind(&self) -> &'static str {
@@ -128,7 +160,7 @@ fn prf_fill(tag: u64, index: u32, dest: &mut [u8]) {
 
 /// The single function behind all seams. `can_fail`: whether the caller can
 /// report an error to the library.
-fn sim_fill(dest: &mut [u8], source: Source, can_fail: bool) -> Result<(), ()> {
+fn sim_fill(dest: &mut [u8], source: Source, can_fail: bool) -> Result<(), i32> {
     crate::ffiyield::seam_yield();
     CTX.with(|c| {
         let mut c = c.borrow_mut();
@@ -141,6 +173,7 @@ fn sim_fill(dest: &mut [u8], source: Source, can_fail: bool) -> Result<(), ()> {
             return Ok(());
         }
         let mut failed = false;
+        let mut fail_code = 0i32;
         match &c.spec {
             RngSpec::Prng { .. } => c.rng.fill(dest),
             RngSpec::Tagged { tag } => prf_fill(*tag, idx, dest),
@@ -161,8 +194,9 @@ fn sim_fill(dest: &mut [u8], source: Source, can_fail: bool) -> Result<(), ()> {
                     c.rng.fill(dest)
                 }
             }
-            RngSpec::Fail { at, partial, .. } => {
-                if idx == *at {
+            RngSpec::Fail { at, partial, repeat, code, .. } => {
+                fail_code = *code;
+                if idx >= *at && idx - *at <= *repeat {
                     if can_fail {
                         let n = (*partial as usize).min(dest.len());
                         let mut g = vec![0u8; n];
@@ -187,8 +221,26 @@ fn sim_fill(dest: &mut [u8], source: Source, can_fail: bool) -> Result<(), ()> {
             bytes: dest.to_vec(),
             failed,
         });
-        if failed { Err(()) } else { Ok(()) }
+        if failed { Err(fail_code) } else { Ok(()) }
     })
+}
+
+/// A getrandom error of the class `code` names (see RngSpec::Fail). Operating-system errors have no
+/// public constructor: getrandom::Error is a 32-bit newtype holding the negated errno, which is what is
+/// written here and verified through `raw_os_error()`; if that ever stops holding, a custom code is
+/// reported instead and the probe `rng-fail:os-error-class` stays at zero.
+pub fn getrandom_error(code: i32) -> getrandom::Error {
+    match code {
+        -1 => getrandom::Error::UNSUPPORTED,
+        -2 => getrandom::Error::UNEXPECTED,
+        n if n > 0 && std::mem::size_of::<getrandom::Error>() == 4 => {
+            // SAFETY: same size; a negative value is non-zero, which is the only validity requirement
+            // of the NonZeroI32 inside
+            let e: getrandom::Error = unsafe { std::mem::transmute::<i32, getrandom::Error>(-n) };
+            if e.raw_os_error() == Some(n) { e } else { getrandom::Error::new_custom(0x51) }
+        }
+        _ => getrandom::Error::new_custom(0x51),
+    }
 }
 
 // ---- seam 1: getrandom 0.3 custom backend ---------------------------------------------------
@@ -199,7 +251,7 @@ unsafe extern "Rust" fn __getrandom_v03_custom(
     len: usize,
 ) -> Result<(), getrandom::Error> {
     let buf = unsafe { std::slice::from_raw_parts_mut(dest, len) };
-    sim_fill(buf, Source::Getrandom, true).map_err(|()| getrandom::Error::new_custom(0x51))
+    sim_fill(buf, Source::Getrandom, true).map_err(getrandom_error)
 }
 
 // ---- seam 2: libsodium randombytes ----------------------------------------------------------
@@ -231,7 +283,7 @@ unsafe impl Sync for SyncImpl {}
 // ---- seams 3 and 4: hooks in paseto-core ----------------------------------------------------
 
 fn hook_fill(dest: &mut [u8]) -> Option<Result<(), ()>> {
-    Some(sim_fill(dest, Source::AwsLc, true))
+    Some(sim_fill(dest, Source::AwsLc, true).map_err(|_| ()))
 }
 
 fn hook_ecdsa_k() -> Option<[u8; 48]> {
